@@ -124,10 +124,10 @@ Qed.
 
 (* a step the contract accepts *)
 Lemma mem_stage_ok b w z idx nc o w' z' :
-  mem_inv b w idx -> bop_nonempty o -> bop_step ByValue nc w z o = inl (w', z') ->
+  mem_inv b w idx -> bop_step ByValue nc w z o = inl (w', z') ->
   mem_inv (mem_stage s b o) w' (S idx).
 Proof.
-  intros (He & Hc & Hso & Hg) Hne. unfold mem_stage. rewrite He.
+  intros (He & Hc & Hso & Hg). unfold mem_stage. rewrite He.
   destruct o as [k v t|k nv ov t|k v t|k|k v stamp]; cbn [bop_step].
   - rewrite Hg. destruct (get w k); [discriminate|]. intros [= <- <-].
     repeat split; cbn [mb_err mb_count mb_cache]; [congruence|apply set_sorted; exact Hso|].
@@ -150,7 +150,7 @@ Qed.
 
 (* a step the contract rejects: the error is latched with an acceptable payload *)
 Lemma mem_stage_fail b w z idx nc o actual :
-  mem_inv b w idx -> bop_nonempty o -> bop_step ByValue nc w z o = inr actual ->
+  mem_inv b w idx -> bop_step ByValue nc w z o = inr actual ->
   exists cf, mb_err (mem_stage s b o) = Some (RCond, cf) /\
              match cf with
              | None => True
@@ -158,7 +158,7 @@ Lemma mem_stage_fail b w z idx nc o actual :
                  match bop_is_putnx o with Some k => k' = k /\ v' = canon_opt actual | None => True end
              end.
 Proof.
-  intros (He & Hc & Hso & Hg) Hne. unfold mem_stage. rewrite He.
+  intros (He & Hc & Hso & Hg). unfold mem_stage. rewrite He.
   destruct o as [k v t|k nv ov t|k v t|k|k v stamp]; cbn [bop_step bop_is_putnx].
   - rewrite Hg. destruct (get w k) as [x|]; [|discriminate]. intros [= <-].
     eexists. split; [reflexivity|]. cbn. auto.
@@ -168,15 +168,13 @@ Proof.
     + intros _. eexists. split; [reflexivity|]. cbn. auto.
   - discriminate.
   - discriminate.
-  - unfold delcur_holds. rewrite Hg. cbn [bop_nonempty] in Hne. destruct (get w k) as [x|].
+  - unfold delcur_holds. rewrite Hg. destruct (get w k) as [x|].
     + destruct (beqb x v) eqn:E; [discriminate|]. intros _. cbn [mb_err].
       exists None. split; [reflexivity|exact I].
-    + intros _. cbn [mb_err]. destruct (beqb [] v) eqn:E.
-      * apply beqb_eq in E. congruence.
-      * exists None. split; [reflexivity|exact I].
+    + intros _. cbn [mb_err]. exists None. split; [reflexivity|exact I].
 Qed.
 
-Lemma mem_fold_sim nc ops : forall b w z idx, mem_inv b w idx -> Forall bop_nonempty ops ->
+Lemma mem_fold_sim nc ops : forall b w z idx, mem_inv b w idx ->
   match batch_go ByValue nc w z idx ops with
   | inl (w', z') => exists b', fold_left (mem_stage s) ops b = b' /\ mem_inv b' w' (idx + length ops)
   | inr (i, actual) =>
@@ -192,19 +190,18 @@ Lemma mem_fold_sim nc ops : forall b w z idx, mem_inv b w idx -> Forall bop_none
                  end
   end.
 Proof.
-  induction ops as [|o rest IH]; intros b w z idx Hinv Hne; cbn [batch_go fold_left].
+  induction ops as [|o rest IH]; intros b w z idx Hinv; cbn [batch_go fold_left].
   - exists b. split; [reflexivity|]. rewrite Nat.add_0_r. exact Hinv.
-  - inversion Hne as [|? ? Ho Hrest]; subst.
-    destruct (bop_step ByValue nc w z o) as [[w1 z1]|actual] eqn:E.
-    + pose proof (mem_stage_ok _ _ _ _ _ _ _ _ Hinv Ho E) as Hinv1.
-      specialize (IH (mem_stage s b o) w1 z1 (S idx) Hinv1 Hrest).
+  - destruct (bop_step ByValue nc w z o) as [[w1 z1]|actual] eqn:E.
+    + pose proof (mem_stage_ok _ _ _ _ _ _ _ _ Hinv E) as Hinv1.
+      specialize (IH (mem_stage s b o) w1 z1 (S idx) Hinv1).
       destruct (batch_go ByValue nc w1 z1 (S idx) rest) as [[w' z']|[i a]].
       * destruct IH as [b' [Hb' Hi]]. exists b'. split; [exact Hb'|].
         cbn [length]. rewrite Nat.add_succ_r. exact Hi.
       * destruct IH as [cf [Herr [Hle Hcf]]]. exists cf. split; [exact Herr|]. split; [lia|].
         destruct cf as [[[i' k'] v']|]; [|exact I]. destruct Hcf as [-> Hcf]. split; [reflexivity|].
         replace (i - idx)%nat with (S (i - S idx)) by lia. exact Hcf.
-    + destruct (mem_stage_fail _ _ _ _ _ _ _ Hinv Ho E) as [cf [Herr Hcf]].
+    + destruct (mem_stage_fail _ _ _ _ _ _ _ Hinv E) as [cf [Herr Hcf]].
       exists cf. rewrite mem_fold_latched by (rewrite Herr; discriminate). split; [exact Herr|]. split; [lia|].
       destruct cf as [[[i' k'] v']|]; [|exact I]. destruct Hcf as [-> Hcf]. split; [reflexivity|].
       rewrite Nat.sub_diag. exact Hcf.
@@ -212,7 +209,7 @@ Qed.
 
 End MemBatch.
 
-Definition mem_R (s : store) (c : cstore) : Prop := s = st c /\ sorted s /\ sorted (stamps c) /\ no_empty_vals s.
+Definition mem_R (s : store) (c : cstore) : Prop := s = st c /\ sorted s /\ sorted (stamps c).
 
 Lemma batch_go_no_empty m nc ops : forall w z idx w' z',
   no_empty_vals w -> Forall bop_nonempty ops -> batch_go m nc w z idx ops = inl (w', z') -> no_empty_vals w'.
@@ -231,19 +228,19 @@ Proof.
     + destruct (delcur_holds m w z k v stamp); [|discriminate]. injection E as <- <-. apply remove_no_empty; assumption.
 Qed.
 
-Lemma mem_batch_sim s c ops : mem_R s c -> Forall bop_nonempty ops ->
+Lemma mem_batch_sim s c ops : mem_R s c ->
   batch_proj_ok ops (batch_eval ByValue c ops) (snd (fst (mem_batch_run s ops))) (snd (mem_batch_run s ops)) = true /\
   match batch_eval ByValue c ops with
   | Applied c' => mem_R (fst (fst (mem_batch_run s ops))) c'
   | CondFailed _ _ => fst (fst (mem_batch_run s ops)) = s
   end.
 Proof.
-  intros (-> & Hs & Hz & Hne) Hops. destruct ops as [|o rest].
+  intros (-> & Hs & Hz). destruct ops as [|o rest].
   - cbn. repeat split; assumption.
   - rewrite batch_eval_cons. unfold mem_batch_run.
     assert (Hinv0 : mem_inv (st c) (mk_mem_batch [] 0 None) (st c) 0).
     { repeat split. constructor. }
-    pose proof (mem_fold_sim (st c) (clock c + 1) (o :: rest) _ _ (stamps c) _ Hinv0 Hops) as H.
+    pose proof (mem_fold_sim (st c) (clock c + 1) (o :: rest) _ _ (stamps c) _ Hinv0) as H.
     destruct (batch_go ByValue (clock c + 1) (st c) (stamps c) 0 (o :: rest)) as [[w' z']|[i a]] eqn:E.
     + destruct H as [b' [Hb' (He & _ & Hso & Hg)]]. rewrite Hb', He. cbn [fst snd batch_proj_ok rclass_eqb andb].
       split; [reflexivity|].
@@ -252,8 +249,7 @@ Proof.
       { apply sorted_ext; [apply apply_writes_sorted; exact Hs|exact Hw'|].
         intros k. unfold mem_apply. rewrite apply_writes_get by exact Hso. rewrite <- Hg. unfold mem_bget.
         destruct (get (mb_cache b') k) as [[v|]|]; reflexivity. }
-      rewrite Heq. repeat split; cbn [st stamps]; try assumption.
-      eapply batch_go_no_empty; eauto.
+      rewrite Heq. repeat split; cbn [st stamps]; assumption.
     + destruct H as [cf [Herr [_ Hcf]]]. rewrite Herr. cbn [fst snd batch_proj_ok rclass_eqb andb].
       split; [|reflexivity].
       destruct cf as [[[i' k'] v']|]; [|reflexivity]. destruct Hcf as [-> Hcf]. rewrite Nat.sub_0_r in Hcf.
@@ -298,7 +294,7 @@ Qed.
 
 Definition sim_memkv : sim memkv ByValue.
 Proof.
-  refine (mk_sim memkv ByValue mem_R (fun i => snd (fst i) <> []) (Forall bop_nonempty) (Forall sbop_nonempty)
+  refine (mk_sim memkv ByValue mem_R (fun _ => True) (fun _ => True) (fun _ => True)
             _ _ _ _ _ _ _ _ _ _ _).
   - repeat split; constructor.
   - intros s c (-> & _). reflexivity.
@@ -306,14 +302,13 @@ Proof.
   - intros s c a b l (-> & Hs & _). cbn [a_iter memkv]. rewrite mem_iter_all by exact Hs.
     exists (length (citems ByValue c a b)). rewrite firstn_all. split; [|apply min_count_le].
     unfold with_stamp0, citems, mk_item. reflexivity.
-  - intros s c a b i (-> & _ & _ & Hne) Hin. apply citems_in in Hin.
-    unfold no_empty_vals in Hne. rewrite Forall_forall in Hne. apply Hne in Hin. exact Hin.
-  - intros s c ops HR Hok. apply mem_batch_sim; assumption.
+  - intros; exact I.
+  - intros s c ops HR _. apply mem_batch_sim; assumption.
   - intros s k. cbn [a_del a_batch memkv]. destruct (mem_batch_run s [Del k]) as [[s' c] cf]. reflexivity.
   - intros s i. reflexivity.
-  - intros k. repeat constructor.
-  - intros i Hi. repeat constructor. exact Hi.
-  - intros h l ops Hl Hh. apply resolve_nonempty; assumption.
+  - intros; exact I.
+  - intros; exact I.
+  - intros; exact I.
 Defined.
 
 (* ====================================================================================== *)
